@@ -1,4 +1,5 @@
 import Restli.Proofs.EndToEnd
+import Restli.Props.C01
 import Restli.Props.C05
 import Restli.Props.C15
 /-! # C02 — end-to-end call fidelity: generated client → HTTP → generated server and back
@@ -15,11 +16,12 @@ the other properties' theorems wherever those are proved:
 * tunnelling transparency (C14): `decode_sent`, `sent_plain`, `decode_no_override` — applied, under
   C14's own hypotheses `TokenBoundary` / `BoundaryFresh` about Go's random multipart boundary;
 * URL construction (C15): `UrlLaw` (the request URL is context path + resource path, raw query kept)
-  is derived from `c15_url_preserved_partial` in `c02_url_law_from_c15`, under C15's guard
-  `NoDotSegments` — the guard of finding C02-dot-segment-key below;
+  is derived from `c15_url_preserved_partial` in `c02_url_law_from_c15` (arbitrary resource path,
+  C15's guard `NoDotSegments` kept) and `c02_url_law_for_call` (the client's own path: guard discharged);
 * JSON values (C01): `json_roundtrip_tree` — applied in the response direction; the step from the
-  emitted JSON *text* to the tree the writers denote is C03's pending whole-document theorem and
-  enters as the hypothesis `JsonText` (compared with two independent parsers on every run);
+  emitted JSON *text* to the tree the writers denote is C03's `parse_renderJson` — applied, under its
+  hypotheses `NumLaws` (strconv's float text is one JSON number token) and `DocTextOK` (strings and
+  keys valid UTF-8);
 * request-direction codec round trips (C01 for keys, parameters, bodies; C11 for patches): enter as
   the hypothesis `hcodec` — the closure's decoders, run on the client's own key texts, sorted
   parameter pairs and body bytes, return the caller's values; `decodeInvocation_client` shows that
@@ -30,11 +32,13 @@ the other properties' theorems wherever those are proved:
 * batch key correlation (C16): `c02_batch_entries_filed_under_caller_keys` is the client loop of this
   model; which replies meet its hypotheses is C16's subject.
 
-Findings of the current code that bound the full statement (each replayed on the real code by
-`bin/check C02`, see known-findings.jsonl):
-* a path key that is a dot segment — `c02_dot_segment_key_cex`, guard `NoDotSegments` (through `UrlLaw`);
-* a created id that is not a transparent HTTP header value — `c02_created_id_header_cex`, guard
-  `HeaderSafe` of `c02_created_id_partial`.
+Two findings were repaired in /repo and are gone from this file as guards (the model follows the
+repaired code): a path key that is a dot segment (`c02_dot_keys_reach_their_method`; the guard
+`NoDotSegments` is now discharged by the writer in `c02_url_law_for_call` and kept only for arbitrary
+resource paths, as in C15) and a created id that is not a transparent HTTP header value
+(`c02_created_id_and_status` is full strength; `c02_awkward_created_ids_come_back`). What is left is
+net/http's: a call through `AddToMux` whose key decodes to an unclean URL path is redirected by
+`http.ServeMux` before go-restli sees it (known finding C02-servemux-unclean-path, D only).
 Statuses left at zero are the protocol's defaults, not findings: `CreatedEntity.Status = 0` is sent
 as 201, `BatchEntityUpdateResponse.Status = 0` as 204 (`createdStatus`; the direct oracle reads them
 the same way). -/
@@ -59,6 +63,8 @@ theorem c02_constants_ok_v2 : ConstsOk constsV2 where
   okStatus := by decide
   finderStr := by decide +kernel
   actionStr := by decide +kernel
+  headerCovers := by decide +kernel
+  headerWrites := by decide +kernel
   elemMeta := by decide +kernel
   metaPaging := by decide +kernel
   elemPaging := by decide +kernel
@@ -220,6 +226,42 @@ theorem c02_url_law_from_c15 (cfg : Cfg) (ctx : List Bytes) (hpfx : cfg.pfx = Ht
   | unmodelled w => simp [hparse] at hP
   | panic => simp [hparse] at hP
 
+/-- **`UrlLaw` for the path of a call — the dot-segment guard is discharged by the writer.** For the
+resource path the generated client builds (`keyTexts`), C15's guard `NoDotSegments` holds by
+construction since `fix: write an entity key that is exactly "." or ".." percent-encoded`: a key
+text is never `.` or `..` (`keyTexts_not_dot`). What remains are statements about the inputs that are
+not keys: the context segments and the resource names are not dot segments and contain no `/`. -/
+theorem c02_url_law_for_call (K : Consts) (N : NumLaws) (env : Env) (cfg : Cfg) (ctx : List Bytes)
+    (hpfx : cfg.pfx = HttpUrlSpec.joinSegs ctx) (r : ResSpec) (c : Call) (texts : List Bytes)
+    (ht : keyTexts K env (keyTys r.method.onEntity r.segs) c.keys = some texts) (root : Bytes) (q : Option Bytes)
+    (hwf : (baseOf ctx).wf = true)
+    (hrp : HttpUrlSpec.resourcePathOk root (joinPath (pathSegsB r.method.onEntity r.segs texts)) = true)
+    (hq : HttpUrlSpec.queryText (q.getD []) = true) (hroot : ∀ s ∈ ctx, s ≠ root)
+    (hctx : ∀ s ∈ ctx, (∀ ch ∈ s, ch ≠ 47) ∧ s ≠ [46] ∧ s ≠ [46, 46])
+    (hnames : ∀ s ∈ r.segs, (∀ ch ∈ s.name, ch ≠ 47) ∧ s.name ≠ [46] ∧ s.name ≠ [46, 46])
+    (htexts : ∀ t ∈ texts, ∀ ch ∈ t, ch ≠ 47) :
+    ∃ u, UrlLaw cfg root (joinPath (pathSegsB r.method.onEntity r.segs texts)) q u := by
+  apply c02_url_law_from_c15 cfg ctx hpfx root _ q hwf hrp hq hroot
+  have hj : HttpUrlSpec.joinSegs ctx = joinPath ctx := by
+    simp [HttpUrlSpec.joinSegs, joinPath, List.flatMap]
+  have happ : joinPath ctx ++ joinPath (pathSegsB r.method.onEntity r.segs texts) =
+      joinPath (ctx ++ pathSegsB r.method.onEntity r.segs texts) := by simp [joinPath]
+  rw [hj, happ]
+  have hnd := keyTexts_not_dot K N env _ _ _ ht
+  apply noDotSegments_joinPath
+  · intro s hs
+    rcases List.mem_append.1 hs with h | h
+    · exact (hctx s h).1
+    · rcases pathSegsB_mem _ _ _ s h with ⟨y, hy, rfl⟩ | hx
+      · exact (hnames y hy).1
+      · exact htexts s hx
+  · intro s hs
+    rcases List.mem_append.1 hs with h | h
+    · exact (hctx s h).2
+    · rcases pathSegsB_mem _ _ _ s h with ⟨y, hy, rfl⟩ | hx
+      · exact (hnames y hy).2
+      · exact hnd s hx
+
 /-- **End-to-end, request direction.** For every registered resource shape, method kind, call, context
 path and tunnelling threshold: if the client marshals the call (key texts `texts`, parameter pairs
 `pairs`, body `bodyD`), then it puts a request on the wire, and the server — de-tunnelling, prefix,
@@ -295,15 +337,16 @@ theorem c02_tunnelling_irrelevant (K : Consts) (hK : ConstsOk K) (env : Env) (ro
 /-! ## the response direction: the client returns what the resource returned -/
 
 /-- **Entity.** What a `get` implementation returns is what the client call returns: the response
-body is the entity's JSON (`JsonText`: C03's text ↔ tree law), read back by the generated unmarshaler
-(C01's JSON tree round trip `json_roundtrip_tree`, applied) — `norm`: defaults filled, map entries in
+body is the entity's JSON, which parses to the tree the writers denote (C03's `parse_renderJson`,
+applied: `NumLaws` about strconv's float text, strings and keys valid UTF-8), read back by the
+generated unmarshaler (C01's JSON tree round trip `json_roundtrip_tree`, applied) — `norm`: defaults filled, map entries in
 key order, NaN canonical. For every schema, entity type, value and depth. -/
 theorem c02_returns_entity (K : Consts) (hK : ConstsOk K) (env : Env) (F : FloatLaws) (C : ConvLaws) (S : SchemaOK env)
     (keq : Value → Value → Bool) (r : ResSpec) (c : Call) (n : TName) (hs : r.schema = some n)
     (hkind : r.method.kind = .get) (v : Value) (hv : ValOK v) (d : Doc)
-    (henc : encode (wcfg K env) encFuel [] (.ref n) v = .ok d) (ht : JsonText d) :
+    (henc : encode (wcfg K env) encFuel [] (.ref n) v = .ok d) (N : NumLaws) (hok : DocTextOK d) :
     callReturns K env keq r c (.entity v) = .entity (norm env encFuel (.ref n) v) := by
-  obtain ⟨resp, h1, h2⟩ := returns_entity_get K hK env F C S keq r c n hs hkind v hv d henc ht
+  obtain ⟨resp, h1, h2⟩ := returns_entity_get K hK env F C S keq r c n hs hkind v hv d henc (jsonText_of N d hok)
   simp [callReturns, h1, h2]
 
 /-- **Action result.** The value an action returns is what the client call returns (the `value`
@@ -312,9 +355,9 @@ theorem c02_returns_action_result (K : Consts) (hK : ConstsOk K) (env : Env) (F 
     (S : SchemaOK env) (keq : Value → Value → Bool) (r : ResSpec) (c : Call) (ty : Ty) (hret : r.method.ret = some ty)
     (hkind : r.method.kind = .action) (v : Value) (hv : ValOK v) (d : Doc)
     (henc : encode (wcfg K env) encFuel [K.fValue] ty v = .ok d)
-    (ht : JsonText ((wcfg K env).finish [(K.fValue, d)])) :
+    (N : NumLaws) (hok : DocTextOK ((wcfg K env).finish [(K.fValue, d)])) :
     callReturns K env keq r c (.action v) = .action (norm env encFuel ty v) := by
-  obtain ⟨resp, h1, h2⟩ := returns_action K hK env F C S keq r c ty hret hkind v hv d henc ht
+  obtain ⟨resp, h1, h2⟩ := returns_action K hK env F C S keq r c ty hret hkind v hv d henc (jsonText_of N _ hok)
   simp [callReturns, h1, h2]
 
 /-- **Elements with paging.** What `get_all` or a finder returns — every element, in order, and the
@@ -325,10 +368,11 @@ theorem c02_returns_elements_paging (K : Consts) (hK : ConstsOk K) (env : Env) (
     (vs : List Value) (hvs : ∀ v ∈ vs, ValOK v) (ds : List Doc) (hds : encElems K env ty vs = some ds)
     (paging : Option Value) (hpv : ∀ p, paging = some p → ValOK p) (pg : List (Bytes × Doc))
     (hpg : encPaging K env paging = some pg) (hmeta : r.method.metadata = none)
-    (ht : JsonText ((wcfg K env).finish ((K.fElements, .arr ds) :: pg))) :
+    (N : NumLaws) (hok : DocTextOK ((wcfg K env).finish ((K.fElements, .arr ds) :: pg))) :
     callReturns K env keq r c (.elements vs paging none) =
       .elements (vs.map (norm env encFuel ty)) (paging.map (norm env encFuel (.ref tCollMeta))) none := by
-  obtain ⟨resp, h1, h2⟩ := returns_elements K hK env F C S keq r c ty hkind hty vs hvs ds hds paging hpv pg hpg hmeta ht
+  obtain ⟨resp, h1, h2⟩ := returns_elements K hK env F C S keq r c ty hkind hty vs hvs ds hds paging hpv pg hpg hmeta
+    (jsonText_of N _ hok)
   simp [callReturns, h1, h2]
 
 /-- **Per-key batch results, statuses and errors are filed under the caller's keys.** One map of a
@@ -347,27 +391,29 @@ theorem c02_batch_entries_filed_under_caller_keys {β : Type} (env : Env) (kt : 
     decodeBatchMap env kt keq callKeys dec [] ms = .ok (ms.map (fun m => (orig m.1, val m.2))) :=
   decodeBatchMap_members env kt keq callKeys dec orig val ms [] hms hdistinct (by intro s hs; cases hs)
 
-/-- the full-strength statement on the created id: whatever id the implementation returns, the client
-returns the id its header text decodes to, and the implementation's status. FALSE today
-(`c02_created_id_header_cex`). -/
-def CreatedIdFull (K : Consts) : Prop :=
-  ∀ (env : Env) (keq : Value → Value → Bool) (r : ResSpec) (c : Call) (kt : Ty) (cr : Created) (idt : Bytes) (id' : Value),
-    lastKeyTy r.segs = some kt → r.method.kind = .create → r.method.returnEntity = false →
-    ror2Text K env K.headerEsc kt cr.id = some idt → ofRes (unmarshalRor2 (pathRCfg env) kt idt) = .ok id' →
-    createdStatus cr / 100 = 2 →
-    callReturns K env keq r c (.created cr) = .created id' (createdStatus cr) none
-
-/-- **Created id and status** (guarded by `HeaderSafe`): when the header text of the id is a
-transparent HTTP header value, the client returns the id that text decodes to — the implementation's
-id, by C01's header-flavour round trip — and the status the implementation chose (201 when it left it
-at zero). -/
-theorem c02_created_id_partial (K : Consts) (env : Env) (keq : Value → Value → Bool) (r : ResSpec) (c : Call)
+/-- **Created id and status — full strength.** Whatever id the implementation returns (any key type,
+any content: spaces at the ends, control bytes, CR/LF, non-ASCII, reserved characters), the client
+returns the id its header text decodes to — the implementation's id, by C01's header-flavour round
+trip `hdec` — and the status the implementation chose (201 when it left it at zero). The former guard
+`HeaderSafe` is now a lemma (`headerText_safe`): since `fix: header-flavour ROR2 escapes control
+bytes, DEL and spaces` every byte the header writer emits survives in an HTTP header field value
+(`ConstsOk.headerCovers` / `headerWrites`, re-decided against the regenerated table on every run). -/
+theorem c02_created_id_and_status (K : Consts) (hK : ConstsOk K) (E : EscLaws K.headerEsc false) (F : FloatLaws)
+    (env : Env) (keq : Value → Value → Bool) (r : ResSpec) (c : Call)
     (kt : Ty) (hkt : lastKeyTy r.segs = some kt) (hkind : r.method.kind = .create) (hre : r.method.returnEntity = false)
     (cr : Created) (idt : Bytes) (hid : ror2Text K env K.headerEsc kt cr.id = some idt)
-    (guard : HeaderSafe idt) (id' : Value) (hdec : ofRes (unmarshalRor2 (pathRCfg env) kt idt) = .ok id')
+    (id' : Value) (hdec : ofRes (unmarshalRor2 (pathRCfg env) kt idt) = .ok id')
     (hst : createdStatus cr / 100 = 2) :
     callReturns K env keq r c (.created cr) = .created id' (createdStatus cr) none := by
-  obtain ⟨resp, h1, h2⟩ := returns_created K env keq r c kt hkt hkind hre cr idt hid guard id' hdec hst
+  have hsafe : HeaderSafe idt := by
+    simp only [ror2Text] at hid
+    cases he : toOpt (encode (wcfg K env) encFuel [] kt cr.id) with
+    | none => simp [he] at hid
+    | some d =>
+      simp only [he, Option.map_some, Option.some.injEq] at hid
+      rw [← hid]
+      exact headerText_safe K hK E F d
+  obtain ⟨resp, h1, h2⟩ := returns_created K env keq r c kt hkt hkind hre cr idt hid hsafe id' hdec hst
   simp [callReturns, h1, h2]
 
 end Restli.E2E
@@ -427,55 +473,38 @@ end Restli.E2E.Witness
 namespace Restli.E2E
 open Witness
 
-/-- the full-strength request-direction statement for one method of the witness world: whatever the
-key, `detail.get(key)` below `coll` invokes `detail.get` with that key. FALSE today. -/
-def DetailGetReaches : Prop :=
-  ∀ key : Bytes, seenKeys [.prim .str] (callSeen constsV2 env roots plainCfg detailGet ⟨[.str key], none, .none⟩) =
-    keyTexts constsV2 env [.prim .str] [.str key]
-
-/-- **Finding C02-dot-segment-key** (DESIGN F13; the guard is `UrlLaw`, i.e. C15's `NoDotSegments`):
-`detail.get(key = ".")` is sent to `/coll/detail` — `url.ResolveReference` removes the dot segment —
-and the server invokes ANOTHER method, `coll.get`, with the key `detail`. -/
-theorem c02_dot_segment_key_cex : ¬ DetailGetReaches := by
-  intro h
-  have := h [46]
-  revert this
+/-- **(was finding C02-dot-segment-key, DESIGN F13 — repaired by `fix: write an entity key that is
+exactly "." or ".." percent-encoded in the resource path`.)** Before the repair
+`detail.get(key = ".")` was sent to `/coll/detail` and invoked `coll.get("detail")`, `detail.delete`
+likewise `coll.delete("detail")` (the retired witnesses `c02_dot_segment_key_cex`,
+`c02_dot_segment_key_other_method`). Now the dot keys travel as `%2E` / `%2E%2E` and reach their
+method with the key intact — plain, under a context path, tunnelled. -/
+theorem c02_dot_keys_reach_their_method :
+    (∀ key ∈ [[46], [46, 46]],
+      seenKeys [.prim .str] (callSeen constsV2 env roots plainCfg detailGet ⟨[.str key], none, .none⟩) =
+        keyTexts constsV2 env [.prim .str] [.str key] ∧
+      seenKeys [.prim .str] (callSeen constsV2 env roots (ctxCfg 1) detailDelete ⟨[.str key], none, .none⟩) =
+        keyTexts constsV2 env [.prim .str] [.str key] ∧
+      seenKeys [.prim .str] (callSeen constsV2 env roots (ctxCfg 0) collGet ⟨[.str key], none, .none⟩) =
+        keyTexts constsV2 env [.prim .str] [.str key]) ∧
+    keyTexts constsV2 env [.prim .str] [.str [46]] = some [sB "%2E"] ∧
+    keyTexts constsV2 env [.prim .str] [.str [46, 46]] = some [sB "%2E%2E"] := by
   decide +kernel
 
-/-- … precisely: `coll.get("detail")` runs instead of `detail.get(".")`, and with `delete` it is
-`coll.delete("detail")` -/
-theorem c02_dot_segment_key_other_method :
-    isOther (callSeen constsV2 env roots plainCfg detailGet ⟨[.str [46]], none, .none⟩) = some (.get, ["detail"]) ∧
-    isOther (callSeen constsV2 env roots plainCfg detailDelete ⟨[.str [46]], none, .none⟩) = some (.delete, ["detail"]) := by
+/-- **(was finding C02-F14-id-header-not-transparent, DESIGN F14 — repaired by `fix: header-flavour
+ROR2 escapes control bytes, DEL and spaces`.)** Before the repair the created id `" "` came back as a
+missing id header, `" a "` as `"a"`, and `"\x00"` failed the whole call (the retired witnesses
+`c02_created_id_header_cex`, `c02_created_id_header_outcomes`). Now each comes back as it was
+returned. -/
+theorem c02_awkward_created_ids_come_back :
+    ∀ id ∈ [[32], [0], sB " a ", sB "a\nb\r", [127, 9], sB "a (b):'c',%41 é/+"],
+      createdIdOf (callReturns constsV2 env (fun _ _ => false) collCreate ⟨[], none, .entity someEntity⟩
+        (.created ⟨.str id, 201, none, none⟩)) = some id := by
   decide +kernel
 
-/-- **Finding C02-F14-id-header-not-transparent** (DESIGN F14; the guard is `HeaderSafe`): the id
-`" "` is trimmed away by net/http — the client reports that the response has no id header although
-the entity was created; the id `"\x00"` makes net/http reject the whole response. -/
-theorem c02_created_id_header_cex : ¬ CreatedIdFull constsV2 := by
-  intro h
-  have := h env (fun _ _ => false) collCreate ⟨[], none, .entity someEntity⟩ (.prim .str) ⟨.str [32], 201, none, none⟩
-    [32] (.str [32]) (by decide +kernel) (by decide +kernel) (by decide +kernel) (by decide +kernel) (by rfl) (by decide)
-  have hno : isNoIdHeader (callReturns constsV2 env (fun _ _ => false) collCreate ⟨[], none, .entity someEntity⟩
-      (.created ⟨.str [32], 201, none, none⟩)) = true := by decide +kernel
-  rw [this] at hno
-  cases hno
-
-/-- … and what the client returns in the two cases -/
-theorem c02_created_id_header_outcomes :
-    isNoIdHeader (callReturns constsV2 env (fun _ _ => false) collCreate ⟨[], none, .entity someEntity⟩
-      (.created ⟨.str [32], 201, none, none⟩)) = true ∧
-    isTransportError (callReturns constsV2 env (fun _ _ => false) collCreate ⟨[], none, .entity someEntity⟩
-      (.created ⟨.str [0], 201, none, none⟩)) = true ∧
-    createdIdOf (callReturns constsV2 env (fun _ _ => false) collCreate ⟨[], none, .entity someEntity⟩
-      (.created ⟨.str (sB " a "), 201, none, none⟩)) = some (sB "a") := by
-  decide +kernel
-
-/-- the guard is satisfiable, and with it the id comes back: reserved characters, percent signs,
-non-ASCII, inner spaces -/
-example : HeaderSafe (Escape.replaceWith Gen.headerEscapes (sB "a (b):'c',%41 é/+")) := by decide +kernel
-example : createdIdOf (callReturns constsV2 env (fun _ _ => false) collCreate ⟨[], none, .entity someEntity⟩
-    (.created ⟨.str (sB "a (b):'c',%41 é/+"), 0, none, none⟩)) = some (sB "a (b):'c',%41 é/+") := by decide +kernel
+/-- the hypotheses of `c02_created_id_and_status` about the header escaper are C01's `escLaws_header`
+for the regenerated table -/
+example : Codec.EscLaws constsV2.headerEsc false := Codec.escLaws_header Escape.tablesV2 Escape.c01_tables_ok_v2
 
 /-! non-vacuity of the request-direction theorems: a key full of reserved characters, a context path,
 tunnelling on and off -/
